@@ -426,6 +426,21 @@ def rule_r13(facts, col, rule_id="C14.R13"):
                                     return any(peel(u).k == "call" and peel(u).bb == bb and not m for u, m in ubs)
                                 if bounded(rg.args[-1]):
                                     ok = True
+                if not ok:
+                    # ... or the staging buffer itself was cut first: `buffer.truncate(n)` on every way from the read to the store
+                    for tb, tt in body.calls():
+                        if tt["f"].get("name") != "truncate" or len(tt["args"]) < 2 or tb == ubb:
+                            continue
+                        tgt = body.operand_expr(tt["args"][0])
+                        if not any(x.k == "call" and x.q == "std::vec::from_elem" and x.bb == abb for x in walk(tgt)):
+                            continue
+                        end = peel(body.operand_expr(tt["args"][1]))
+                        if end.k == "call" and end.bb == bb and tb in body.reachable(bb):
+                            # no way from the read to the store around the cut (value-sensitive: on a view the helper's
+                            # `Err` exits join its `Ok` exit before the caller's `?` separates them again)
+                            r_, _e = flag_search(body, list(body.succ[bb]), avoid={tb}, track_bools=False)
+                            if ubb not in r_:
+                                ok = True
                 if ok:
                     col.ok(rule_id, key, body.where(ubb), "the carry buffer receives `[..n]` of the staging buffer, n = the read's result")
                 else:
@@ -467,6 +482,11 @@ def _mentions_carry(e, carry, depth=0):
     return None
 
 
+def _c16_reads(facts, body):
+    from . import c16
+    return c16.reads_from_io(facts, body)
+
+
 def rule_r5(facts, col):
     """bytes of a pending partial sample are never thrown away unread"""
     for body in facts.impl_bodies(BLOCK_TRAIT, "work"):
@@ -474,7 +494,7 @@ def rule_r5(facts, col):
         if not carry:
             continue
         if not [1 for b in [body] + adt_helpers(facts, body) for bb, t in b.calls()
-                if t["f"].get("name") == "read" and t["f"].get("trait") == "std::io::Read"]:
+                if t["f"].get("name") == "read" and t["f"].get("trait") == "std::io::Read"] and not _c16_reads(facts, body):
             continue
         for hb in adt_helpers(facts, body):
             _carry_drops(facts, col, hb, carry, owner=body)
@@ -566,7 +586,7 @@ rule_r2 = effects.view_fallback(rule_r2)
 rule_r4 = effects.view_fallback(rule_r4)
 rule_r5 = effects.view_fallback(rule_r5)
 rule_r10 = effects.view_fallback(rule_r10)
-rule_r13 = effects.view_fallback(rule_r13)
+rule_r13 = effects.view_fallback(rule_r13, trust_view=True)
 
 def run(ctx):
     facts = ctx.facts("default")
